@@ -13,7 +13,7 @@
    The network theorems hold for every coefficient type (they only need the constant 0); the algebra is
    stated for Q and for any commutative ring.  The model is tied to /repo by the correspondence run. *)
 From Coq Require Import List Bool Arith ZArith QArith String Permutation Sorted Ring_theory Setoid.
-From ACN Require Import Base.Num Model.Current Model.Network Proofs.Current Proofs.Network Proofs.NetworkMore Proofs.NetworkPhase.
+From ACN Require Import Base.Num Base.ListX Model.Current Model.Network Proofs.Current Proofs.Network Proofs.NetworkMore Proofs.NetworkPhase.
 Import ListNotations.
 Open Scope nat_scope.
 
@@ -77,16 +77,23 @@ Theorem C12_listing_order_perm : forall (A : Type) (c c' : current A),
 Proof. exact (@perm_cur_equiv). Qed.
 Print Assumptions C12_listing_order_perm.
 
-(* registration order: column k is the k-th distinct station registered (a repeated registration keeps
-   the first position; its voltage and angle are appended nevertheless, as the code does) *)
+(* registration order: column k is the k-th distinct station registered; a repeated registration keeps the
+   station's first position and overwrites its voltage and angle (76013ed), so both arrays always have one entry
+   per station *)
 Theorem C12_registration_order : forall (A : Type) (zero : A) (regs : list (station * Q * Q)),
   let n := run zero (map (reg_op (A := A)) regs) net0 in
   stations n = dedup_first [] (map (fun p => fst (fst p)) regs) /\
-  volts n = map (fun p => snd (fst p)) regs /\
-  angles n = map (fun p => snd p) regs /\
+  volts n = map (reg_volt regs) (stations n) /\        (* voltage given at the station's last registration *)
+  angles n = map (reg_angle regs) (stations n) /\
   cmat n = None /\ mags n = [] /\ cnames n = [].
 Proof. exact (@registration_order). Qed.
 Print Assumptions C12_registration_order.
+
+Theorem C12_arrays_aligned : forall (A : Type) (zero : A) (ops : list (op A)),
+  let n := run zero ops net0 in
+  List.length (volts n) = List.length (stations n) /\ List.length (angles n) = List.length (stations n).
+Proof. exact (@arrays_aligned). Qed.
+Print Assumptions C12_arrays_aligned.
 
 (* update_constraint = remove + add at the end; if the new Current names an unregistered station the
    KeyError is raised after the old constraint is gone *)
@@ -281,16 +288,14 @@ Theorem C12_subset_phase : forall (A : Type) (zero : A) (add mul : A -> A -> A)
 Proof. exact (@subset_phase_of_full). Qed.
 Print Assumptions C12_subset_phase.
 
-(* Full-strength statement "on every reachable network with a constraint, a rectangular schedule with one row
-   per station and in-range periods is answered" is REFUTED when a station id was registered twice
-   (Props/C12_findings.v).  Guarded version: every station registered exactly once, then any constraint
-   operations — the query is answered and entry (i, j) is  sum_k coeff(current_i, s_k) * X[k][j] * (cos_k, sin_k). *)
-Theorem C12_subset_phase_values_partial : forall (A : Type) (zero : A) (add mul : A -> A -> A)
-    (regs : list (station * Q * Q)) (ops : list (op A)) (X : sched A) C T (trig : list (A * A)),
-  NoDup (reg_ids regs) -> forallb (no_register (A := A)) ops = true ->
-  List.length (xrows X) = List.length regs ->
-  let n := run zero (map reg_op regs ++ ops) net0 in
-  let g := grun (map reg_op regs ++ ops) (ghost0 (A := A)) in
+(* on EVERY reachable network — any registration sequence, repeated station ids included — a schedule with one
+   row per station is answered (never ValueError), and entry (i, j) is
+   sum_k coeff(current_i, s_k) * X[k][j] * (cos_k, sin_k) *)
+Theorem C12_subset_phase_values : forall (A : Type) (zero : A) (add mul : A -> A -> A)
+    (ops : list (op A)) (X : sched A) C T (trig : list (A * A)),
+  let n := run zero ops net0 in
+  let g := grun ops (ghost0 (A := A)) in
+  List.length (xrows X) = List.length (stations n) ->
   constraint_current_phase zero add mul X C T trig n =
   match sel_cols (xw X) T with
   | None => Err "IndexError"%string
@@ -306,8 +311,8 @@ Theorem C12_subset_phase_values_partial : forall (A : Type) (zero : A) (add mul 
             map (fun i => map (entry snd i) js) (constraint_indices C (cnames n)))
       else Err "TypeError"%string
   end.
-Proof. exact (@ccp_values_unique_registration). Qed.
-Print Assumptions C12_subset_phase_values_partial.
+Proof. exact (@ccp_values). Qed.
+Print Assumptions C12_subset_phase_values.
 
 (* ===== registration guard =====
    The code tests `self.constraint_matrix is not None`.  Once an add_constraint / update_constraint has been
@@ -327,8 +332,10 @@ Theorem C12_register_open : forall (A : Type) (zero : A) (ops : list (op A)) s v
                       fst (step zero o (run zero pre net0)) <> None) ->
   let n := run zero ops net0 in
   register_evse s v ph n =
-  (None, mkNet (if smem s (stations n) then stations n else stations n ++ [s])
-               (volts n ++ [v]) (angles n ++ [ph]) None (mags n) (cnames n)).
+  (None, match col_pos s (stations n) with
+         | Some i => mkNet (stations n) (upd i v (volts n)) (upd i ph (angles n)) None (mags n) (cnames n)
+         | None => mkNet (stations n ++ [s]) (volts n ++ [v]) (angles n ++ [ph]) None (mags n) (cnames n)
+         end).
 Proof. exact (@register_open). Qed.
 Print Assumptions C12_register_open.
 
@@ -367,7 +374,7 @@ Example C12_subset_example :
          Some (2 * 1 + 0 * 10 + 3 * 100 + 0)]].
 Proof. vm_compute. reflexivity. Qed.
 
-Example C12_algebra_partial_example :
+Example C12_algebra_any_mode_example :
   inplace_lossless 0 1 Qplus Qmult (-1 # 1) InplaceReindex
     (EIadd (EDict [(1%nat, 1); (2%nat, 0)]) (ERmul 3 (EStr 2%nat))) = true.
 Proof. reflexivity. Qed.
@@ -383,3 +390,14 @@ Example C12_duplicate_names_example :
   cnames (run 0 (ops ++ [ORemove "a_v2"%string]) net0) = ["a"; "a_v2"]%string /\
   list_eqb Qeq_bool (mags (run 0 (ops ++ [ORemove "a_v2"%string]) net0)) [10; 30] = true.
 Proof. vm_compute. repeat split. Qed.
+
+(* the history that used to break the default query (a station id registered twice; repaired by 76013ed) *)
+Example C12_reregistration_example :
+  let n := run 0 rereg_ops net0 in
+  stations n = [1; 2]%nat /\
+  list_eqb Qeq_bool (volts n) [240; 208] = true /\ list_eqb Qeq_bool (angles n) [150; -30] = true /\
+  qcc rereg_X None None n = Ok [[Some (1 * 10 + (1 * 5 + 0)); Some (1 * 10 + (1 * 5 + 0))]] /\
+  (exists re im, qccp rereg_X None None rereg_trig n = Ok (re, im) /\
+     qmatrix_eqb re [[Some (-433 # 100); Some (-433 # 100)]] = true /\
+     qmatrix_eqb im [[Some (5 # 2); Some (5 # 2)]] = true).
+Proof. exact rereg_example. Qed.
